@@ -360,6 +360,14 @@ type machine struct {
 	readers map[string]*bytes.Reader
 
 	lastFaceID string // Location.File of the last AddFace
+
+	subsCache map[string]map[string]fontscan.VerifFamilyScore
+	// langMode: generator mode aimed at the language-conditioned substitution rules: faces with
+	// Latin coverage registered under families the table reaches only for the language of one
+	// steering script (steer) or by default, queries made of generic families and aliases,
+	// script changes between lookups among the steering script and scripts no face supports
+	langMode bool
+	steer    steering
 }
 
 func discard() *log.Logger { return log.New(io.Discard, "", 0) }
@@ -631,6 +639,15 @@ func (m *machine) resolveFace(t ev.TB, r rune) {
 
 	// evidence
 	m.label(fmt.Sprintf("answer_from_step_%d", from))
+	if fires, reaches := m.langSteers(m.currentFamilies(), language.ScriptToLang[m.script]); fires {
+		m.label("lookup_with_language_rule_fired")
+		if reaches {
+			m.label("lookup_with_language_rule_reaching_db_family")
+			if want >= 0 && from == 2 && !m.db[want].hasScript(m.script) {
+				m.label("lookup_answered_through_fallback_without_script_support")
+			}
+		}
+	}
 	if len(m.db) >= 2 && !equalInts(lists.exact, lists.fallback) {
 		m.listsDiffer = true
 	}
@@ -697,6 +714,18 @@ func (m *machine) show(idx int) string {
 	return fmt.Sprintf("#%d[%s:%d:%d %q %v]", idx, e.Loc.File, e.Loc.Index, e.Loc.Instance, e.Family, e.Aspect)
 }
 
+func equalStrings(a, b []string) bool {
+	if len(a) != len(b) {
+		return false
+	}
+	for i := range a {
+		if a[i] != b[i] {
+			return false
+		}
+	}
+	return true
+}
+
 func equalInts(a, b []int) bool {
 	if len(a) != len(b) {
 		return false
@@ -758,14 +787,46 @@ func (m *machine) genFamily(t *rapid.T, forQuery bool) string {
 	if !forQuery && m.pureDB {
 		return pick(t, "madeUp", madeUp)
 	}
+	if m.langMode {
+		switch {
+		case forQuery && k < 55:
+			return pick(t, "steeredQuery", m.steer.Queries) // a generic family / alias whose expansion depends on the language
+		case forQuery && k < 75:
+			return pick(t, "generic", generics)
+		case forQuery && k < 85:
+			return pick(t, "alias", vocab.Aliases)
+		case forQuery:
+			return pick(t, "madeUp", madeUp)
+		case k < 50:
+			return pick(t, "reachedUnderLanguage", m.steer.Reach)
+		case k < 80:
+			return pick(t, "genericDefault", vocab.Defaults)
+		case k < 90:
+			return pick(t, "tableFamily", vocab.Families)
+		default:
+			return pick(t, "madeUp", madeUp)
+		}
+	}
 	switch {
 	case forQuery && k < 45 && len(m.db) > 0:
 		// a family present in the database (normalised form, or a spelling of the pool)
 		return m.db[rapid.IntRange(0, len(m.db)-1).Draw(t, "dbFamily")].Family
 	case k < 55 || (forQuery && k < 70):
 		return pick(t, "madeUp", madeUp)
-	case k < 85:
+	case k < 65:
 		return pick(t, "real", realNames)
+	case k < 72:
+		// any family named by the substitution table
+		return pick(t, "tableFamily", vocab.Families)
+	case k < 79:
+		return pick(t, "alias", vocab.Aliases)
+	case k < 85:
+		// a family some language-conditioned rule adds
+		r := pick(t, "langRule", vocab.LangRules)
+		if len(r.Targets) == 0 {
+			return r.Test
+		}
+		return pick(t, "langRuleTarget", r.Targets)
 	case k < 95:
 		return pick(t, "generic", generics)
 	default:
@@ -834,6 +895,23 @@ func (m *machine) genRune(t *rapid.T) rune {
 }
 
 func (m *machine) genScript(t *rapid.T) language.Script {
+	if k := rapid.IntRange(0, 9).Draw(t, "tableScriptKind"); m.langMode && k < 8 {
+		switch {
+		case k < 4:
+			return m.steer.Script
+		case k < 6:
+			return pick(t, "unsupportedScript", vocab.Unsupported)
+		default:
+			return pick(t, "steeringScript", vocab.Steering).Script
+		}
+	} else if k == 9 {
+		// scripts taken from the library's tables: one whose language steers the substitutions,
+		// or one no face supports
+		if rapid.Bool().Draw(t, "steeringOrUnsupported") {
+			return pick(t, "steeringScript", vocab.Steering).Script
+		}
+		return pick(t, "unsupportedScript", vocab.Unsupported)
+	}
 	if rapid.IntRange(0, 9).Draw(t, "scriptKind") < 5 && len(m.db) > 0 {
 		e := m.db[rapid.IntRange(0, len(m.db)-1).Draw(t, "scriptOf")]
 		if len(e.Scripts) > 0 {
@@ -851,6 +929,9 @@ func (m *machine) nextID(ext string) string {
 func (m *machine) actions() map[string]func(*rapid.T) {
 	addFace := func(t *rapid.T) {
 		file := pick(t, "faceFile", facePoolFiles)
+		if m.langMode && rapid.IntRange(0, 9).Draw(t, "latinFace") < 8 {
+			file = pick(t, "latinFaceFile", latinPoolFiles) // shared runes, few scripts
+		}
 		id := m.nextID(pick(t, "ext", fileExts))
 		var index, instance uint16
 		if k := rapid.IntRange(0, 9).Draw(t, "locationKind"); k < 3 && m.lastFaceID != "" {
@@ -969,6 +1050,37 @@ func (m *machine) actions() map[string]func(*rapid.T) {
 		"SetScript": func(t *rapid.T) {
 			m.apply(t, op{Op: "SetScript", Script: scriptTag(m.genScript(t))})
 		},
+		// another family list with the SAME concatenation (families merged, split elsewhere, or
+		// preceded by the empty family), same aspect, then a lookup that was probably cached:
+		// different lists must not share anything keyed by their concatenation
+		"ResplitQueryThenRepeat": nonEmpty(func(t *rapid.T) {
+			all := strings.Join(m.families, "")
+			if !m.querySet || len(all) < 2 {
+				t.Skip("nothing to re-split")
+			}
+			var fams []string
+			switch k := rapid.IntRange(0, 3).Draw(t, "resplit"); {
+			case k == 0 && len(m.families) > 1:
+				fams = []string{all}
+			case k == 1:
+				fams = append([]string{""}, m.families...)
+			default:
+				cut := rapid.IntRange(1, len(all)-1).Draw(t, "cut")
+				fams = []string{all[:cut], all[cut:]}
+			}
+			if equalStrings(fams, m.families) || len(fams) > 4 {
+				fams = []string{all, ""}
+			}
+			m.apply(t, op{Op: "SetQuery", Families: fams, Aspect: toJ(m.aspect)})
+			m.label("query_resplit_same_concatenation")
+			resolve(t)
+		}),
+		// another script (no SetQuery, no Add in between), then a lookup that was probably made
+		// under the previous script
+		"ScriptChangeThenRepeat": nonEmpty(func(t *rapid.T) {
+			m.apply(t, op{Op: "SetScript", Script: scriptTag(m.genScript(t))})
+			resolve(t)
+		}),
 		"BackToPreviousScript": func(t *rapid.T) {
 			if !m.scriptSet {
 				t.Skip("no previous script")
@@ -1013,14 +1125,42 @@ func prepare(t ev.TB) {
 	if err := checkNamePools(); err != nil {
 		t.Fatalf("name pools: %v", err)
 	}
+	v, err := loadVocabulary()
+	if err != nil {
+		t.Fatalf("%v", err)
+	}
+	for _, f := range v.Families {
+		if isMadeUp(font.NormalizeFamily(f)) {
+			t.Fatalf("name pools: the made-up family %q is named by the substitution table", f)
+		}
+	}
+	noteOnce.Do(func() {
+		var tags []string
+		for _, st := range v.Steering {
+			tags = append(tags, st.Script.String())
+		}
+		ev.Note("vocabulary from %s: %d families, %d aliases, %d language-conditioned rules; %d scripts steer the substitutions (%s); %d scripts without any face",
+			v.Source, len(v.Families), len(v.Aliases), len(v.LangRules), len(v.Steering), strings.Join(tags, " "), len(v.Unsupported))
+	})
 }
+
+var noteOnce sync.Once
+
+// latinPoolFiles: the faces of the pool that cover Latin and few other scripts.
+var latinPoolFiles = []string{facePoolFiles[0], facePoolFiles[1], facePoolFiles[6], facePoolFiles[8], facePoolFiles[11]}
 
 // TestPropFontMapMachine is the rapid state machine.
 func TestPropFontMapMachine(t *testing.T) {
 	prepare(t)
 	rapid.Check(t, func(t *rapid.T) {
 		m := newMachine()
-		m.pureDB = rapid.IntRange(0, 9).Draw(t, "pureDB") < 4
+		switch k := rapid.IntRange(0, 9).Draw(t, "pureDB"); {
+		case k < 3:
+			m.pureDB = true
+		case k < 6:
+			m.langMode = true
+			m.steer = pick(t, "steer", vocab.Steering)
+		}
 		m.apply(t, op{Op: "SetRuneCacheSize", Size: pick(t, "initialCacheSize", cacheSizes)})
 		t.Repeat(m.actions())
 		m.finish()
@@ -1041,6 +1181,12 @@ func (m *machine) finish() {
 		labels = append(labels, "db_families_outside_substitution_table")
 	} else if len(m.db) > 0 {
 		labels = append(labels, "db_has_substitutable_or_file_families")
+	}
+	if m.langMode {
+		labels = append(labels, "history_language_mode")
+	}
+	if m.labels["lookup_with_language_rule_reaching_db_family"] > 0 {
+		labels = append(labels, "history_with_language_rule_reaching_db_family")
 	}
 	if m.evictedAgain {
 		labels = append(labels, "history_with_repeat_after_eviction")
